@@ -612,6 +612,11 @@ def _dohist(data, dmin, s, binsize, hist, revind=None):
     i = 0
     binnum_old = -1
 
+    # offset just past the last datum that was counted; data that fall beyond
+    # the last bin are not counted and must not end up in the reverse indices
+    # of the last occupied bin
+    offset_end = nbin + 1
+
     while i < s.size:
         data_index = s[i]
         if dorev:
@@ -630,6 +635,7 @@ def _dohist(data, dmin, s, binsize, hist, revind=None):
 
             hist[binnum] += 1
             binnum_old = binnum
+            offset_end = offset + 1
 
         i += 1
         offset += 1
@@ -638,7 +644,7 @@ def _dohist(data, dmin, s, binsize, hist, revind=None):
         # Fill in the last ones
         tbin = binnum_old + 1
         while tbin <= nbin:
-            revind[tbin] = revind.size
+            revind[tbin] = offset_end
             tbin += 1
 
 
